@@ -578,8 +578,7 @@ def observe_run(C, reads1, reads2, workdir):
         mC = {k: v for k, v in C.items() if k not in ("cores", "buffer_size", "sched_seed", "sched_weights", "perm_seed")}
         mres = run_cli(["--report=minimal"] + build_argv(mC), inputs, workdir + "-minimal")
         report["minimal_ok"] = bool(mres.exit == 0 and mres.exception is None and mres.json is not None
-                                    and minimal_report_ok(mres.report, mres.json, paired)
-                                    and mres.json["read_counts"] == rc)
+                                    and minimal_report_ok(mres.report, mres.json, paired))
     ev.update(cfg=cfg, reads=reads, report=report)
     ev["stats1"] = adapter_stats(j.get("adapters_read1") or [], sampler.desc1, sampler)
     ev["stats2"] = adapter_stats(j.get("adapters_read2") or [], sampler.desc2, sampler) if paired else []
